@@ -234,6 +234,18 @@ class BaseServer:
             return []
         return ['websocket']
 
+    def _request_transport(self, environ):
+        """Return the transport that a request naming an existing session is
+        actually going to use, whatever its query string says."""
+        if environ['REQUEST_METHOD'] == 'GET':
+            connections = [
+                c.strip() for c in environ.get(
+                    'HTTP_CONNECTION', '').lower().split(',')]
+            if 'upgrade' in connections and environ.get(
+                    'HTTP_UPGRADE', '').lower() == 'websocket':
+                return 'websocket'
+        return 'polling'
+
     def _get_socket(self, sid):
         """Return the socket object for a given session."""
         try:
